@@ -28,6 +28,8 @@ ConfigsQuick == {Lat(4, "open", "finite", "spin", 1), Lat(3, "open", "finite", "
 \* 64 states: only pairs, sums and the equality / Hermiticity tests (Big below); run separately
 ConfigsBig == {Lat(2, "periodic", "infinite", "spin", 3)}
 ConfigsOne == {Lat(3, "open", "finite", "fermion", 1)}
+\* exhaustive run of the quick tier (the two-site infinite unit cell is covered by ConfigsBig and the simulation)
+ConfigsMC == {Lat(4, "open", "finite", "spin", 1), Lat(3, "open", "finite", "fermion", 1), Lat(1, "periodic", "infinite", "spin", 4)}
 ConfigsTwo == {Lat(3, "open", "finite", "spin", 1), Lat(2, "periodic", "infinite", "spin", 2)}
 ConfigsFull == ConfigsQuick \cup {Lat(3, "open", "finite", "spin", 1), Lat(4, "periodic", "finite", "fermion", 1),
                                   Lat(2, "periodic", "infinite", "fermion", 2), Lat(2, "open", "finite", "boson1", 1)}
@@ -249,6 +251,11 @@ QApply == \E s \in {"A", "B"} : Filled(s) /\ ~Infinite(cfg) /\ \E cs \in ApplyCa
 QUI == \E s \in {"A", "B"} : Filled(s) /\ AllMarkers(s) /\ Get(s).decls # <<>> /\ ~Infinite(cfg) /\ \E dt \in {<<0, 0>>, <<1, 0>>, <<0, -1>>, <<2, 1>>} :
     Step([op |-> "make_U_I", s |-> s, dt |-> dt, U |-> Sparse(UI(cfg, Get(s).decls, dt))], A, B)
 
+\* make_U_I of the sum A + B: the terms of a sum are the terms of both operands (also on the window of an infinite MPO)
+QUISum == ~Big /\ Filled("A") /\ Filled("B") /\ A.mk = "all" /\ B.mk = "all" /\ A.decls # <<>> /\ B.decls # <<>> /\
+    \E dt \in {<<1, 0>>, <<0, -1>>} :
+        Step([op |-> "make_U_I_of_sum", dt |-> dt, U |-> Sparse(UI(cfg, A.decls \o B.decls, dt))], A, B)
+
 IsDiagonal(X) == \A r \in 1..NRows(X) : \A q \in 1..NCols(X) : r # q => GIsZero(X[r][q])
 OnsiteOnly(ds) == \A n \in 1..Len(ds) : ds[n].kind = "onsite"
 QUII == \E s \in {"A", "B"} : Filled(s) /\ AllMarkers(s) /\ Get(s).decls # <<>> /\ ~Infinite(cfg) /\ \E dt \in {<<0, 0>>, <<0, -1>>} :
@@ -273,7 +280,7 @@ QPrefactor == ~Big /\ \E s \in {"A"} : Filled(s) /\ AllMarkers(s) /\ \E ops \in 
 QUIIOrder == ~Big /\ \E s \in {"A"} : Filled(s) /\ AllMarkers(s) /\ Get(s).decls # <<>> /\ ~Infinite(cfg) /\
     \E ph \in {<<-1, 0>>, <<0, -1>>, <<1, -1>>} : Step([op |-> "make_U_II_order", s |-> s, ph |-> ph, k |-> 6], A, B)
 
-Next == Setup \/ QPrefactor \/ QUIIOrder \/ Make \/ MakePair \/ Add \/ Dagger \/ PlusIdentity \/ Represent \/ QHermitian \/ QEqual \/ QOverlap \/ QExpect \/ QApply
+Next == Setup \/ QPrefactor \/ QUIIOrder \/ QUISum \/ Make \/ MakePair \/ Add \/ Dagger \/ PlusIdentity \/ Represent \/ QHermitian \/ QEqual \/ QOverlap \/ QExpect \/ QApply
         \/ QUI \/ QUII
 Spec == Init /\ [][Next]_vars
 
